@@ -401,6 +401,15 @@ func run(id string, sc scen) runner.Result {
 	if len(fails) > 0 {
 		fails = append(fails, "goroutines in drpc at quiescence:\n"+census.Dump(census.InDRPC(snap)))
 	}
+	// 1b. with every call returned and nothing of the RPC in flight, the RPC is over: its stream's
+	// own context is done. (Checked before any further call is made on the stream: a later call would
+	// complete a stream that failed to notice it had finished.)
+	if st != nil && len(fails) == 0 {
+		census.Quiesce(rig.Watchdog)
+		if !rig.IsClosed(st.Context().Done()) {
+			failf("every call of the cancelled RPC has returned but its stream's context is not done at quiescence (the stream never finished)")
+		}
+	}
 	// 2. later send and receive fail
 	if st != nil && len(fails) == 0 {
 		for _, name := range []string{"send", "recv"} {
@@ -469,6 +478,18 @@ func run(id string, sc scen) runner.Result {
 			}
 		}
 		_ = snap2
+	}
+	// 5. with every call returned, the cancelled RPC is over: its stream's own context is done, and
+	// closing the connection returns (a stream that never finishes would keep the manager waiting)
+	if len(fails) == 0 && st != nil {
+		census.Quiesce(rig.Watchdog)
+		if !rig.IsClosed(st.Context().Done()) {
+			failf("every call of the cancelled RPC has returned but its stream's context is not done at quiescence (the stream never finished)")
+		}
+		closer := rig.Go("conn-close", func() (interface{}, error) { return nil, rg.Conn.Close() })
+		if !closer.Wait() {
+			failf("Conn.Close after the cancelled RPC does not return")
+		}
 	}
 	if len(fails) > 0 {
 		key := "cancel:" + keyOf(sc, fails[0])
